@@ -3,7 +3,7 @@
 Engine B over the documented token grammar of `shell.define("cmd <in:type> --opt <x:int=3> ...")`
 (docs tutorial 5-shell + the shell.define docstring; grammar and meaning in spec/shell.py:
 tmpl_text / tmpl_fields / tmpl_argv).  For every generated template (<= 6 white-space tokens,
-names x,y,z, 3 types quick / 6 thorough):
+names x,y,z; 3 input types quick, 8 incl. tuple types thorough for <= 2 fields):
   (1) `shell.define(template)` succeeds,
   (2) the defined class has exactly the spelled fields with the spelled type, optionality (?),
       multiplicity (+, *), default (=), option string, output role and path template ($),
@@ -49,10 +49,6 @@ def item_variants(name, in_types, out_types, defaults):
         out.append(dict(form="pos", name=name, out=True, type=t, mod="?"))
         out.append(dict(form="opt", option="--" + name, name=name, out=True, type=t, mod=""))
     return out
-
-
-def item_key(it):
-    return S.tmpl_item_text(it)
 
 
 # ------------------------------------------------------------------------------ real side
@@ -184,6 +180,7 @@ def check_template(agg, executable, items, H):
             agg.fail(classify_argv(items, vals, got, exp), f"{text!r} with {vals}: argv {got}, template order gives {exp[0]}", dict(case, values=vals, got=got, expected=exp[0]))
 
 
+# No finding on the unchanged tree: every failure is unclassified (a VIOLATION).
 def classify_define(items, e):
     return None
 
